@@ -39,7 +39,6 @@ Definition spec_dec_dataspace (lsz : nat) (pad_ok : bool) (bs : bytes) : outcome
   '(kind, r) <- (if ver =? 1 then '(_, r) <- p_zeros 5 r;; Ok (if rank =? 0 then 0 else 1, r)
                  else if ver =? 2 then '(k, r) <- p_byte r;; _ <- guard (k <? 3);; Ok (k, r)
                  else Err);;
-  _ <- guard (rank <=? 32);;                                   (* H5S_MAX_RANK *)
   _ <- guard (if kind =? 1 then true else rank =? 0);;
   '(dims, r) <- p_us lsz (N.to_nat rank) r;;
   '(maxd, r) <- (if fl =? 1 then '(m, r) <- p_us lsz (N.to_nat rank) r;; Ok (Some m, r) else Ok (None, r));;
@@ -298,7 +297,7 @@ Definition spec_dec_layout (osz lsz : nat) (pad_ok : bool) (bs : bytes) : outcom
     '(a, r) <- p_u osz r;; '(s, r) <- p_u lsz r;; _ <- p_end pad_ok r;; Ok (LyContiguous a s)
   else if cls =? 2 then
     '(nd, r) <- p_byte r;;
-    _ <- guard ((0 <? nd) && (nd <=? 33));;
+    _ <- guard (0 <? nd);;
     '(a, r) <- p_u osz r;;
     '(dims, r) <- p_us 4 (N.to_nat nd) r;;
     _ <- guard (forallb (fun d => 0 <? d) dims);;
